@@ -124,6 +124,8 @@ def main():
         strings += ["".join(t) for t in itertools.product(alphabet, repeat=L)]
     n3 = 4000 if T == "quick" else 40000
     strings += ["".join(rng.choice(alphabet) for _ in range(3)) for _ in range(n3)]
+    # names that are not in Unicode normalisation form C (a base letter + combining mark, singleton code points, Hangul jamo)
+    strings += ["e\u0301", "a\u030a b", "\u212b", "\u2126x", "\u1100\u1161", "n\u0303.o", "\uf900"]
     strings += ["dap4.ce=/x y", "dap4", "dap4.ce=", "dap4 b c.d", "dap4.ce=a.b[0:1:2]", "dap", "dap4%2Ex", "xdap4.ce=",
                 "a%41", "%", "%%", "%4", "%zz", "100%", "a%2Eb", "a%2eb", "%5B%5D", "White space", "Period."]
     for _ in range(600 if T == "quick" else 6000):
